@@ -8,6 +8,7 @@ import (
 	"regexp"
 	"runtime/debug"
 	"sort"
+	"strings"
 	"sync"
 	"time"
 
@@ -69,6 +70,11 @@ func cmdRun(args []string) int {
 				break
 			}
 			fmt.Printf("   VIOL %s %q at %s\n      stack: %s\n      inputs: %v\n", v.Kind, v.Msg, v.Site, v.Stack, v.Inputs)
+		}
+		for _, n := range r.InitNotes {
+			if !strings.Contains(n, "init skipped") {
+				fmt.Printf("   INITNOTE %s\n", n)
+			}
 		}
 		seen := map[string]bool{}
 		for _, s := range r.Inconclusive {
@@ -173,7 +179,3 @@ func runHarnesses(c runCfg, tweak harnessOpts) ([]*interp.Result, error) {
 	return results, nil
 }
 
-func cmdCheck(args []string) int {
-	fmt.Fprintln(os.Stderr, "check: not implemented yet")
-	return 2
-}
